@@ -39,11 +39,14 @@ def _has_identity_guard(fn) -> bool:
 
 
 def run(chk, repo: Repo):
-    chk.rule("C07-R1", "adjoint = _apply_func(raw adjoint, domain geometry, range geometry, ...); matrix wiring M@x / M.T@y; linear gradient = raw adjoint", floor=3)
+    chk.rule("C07-R1", "adjoint = _apply_func(raw adjoint, domain geometry, range geometry, ...); matrix wiring M@x / M.T@y; linear gradient = raw adjoint; "
+                       "the operator handles (_forward_func / _adjoint_func) are written by the constructors only, the raw matrix of a matrix-backed model by nobody else", floor=3)
     chk.rule("C07-R2", "dual quantities are converted to parameters with fun2par only under the identity-geometry guard", floor=2)
-    chk.rule("C07-R3", "the raw matrix is handed out as the par->par matrix only under the identity-geometry guard", floor=1)
+    chk.rule("C07-R3", "the raw matrix is handed out as the par->par matrix only under the identity-geometry guard; a cached attribute of the model layer is reset "
+                       "by every writer of what it was computed from", floor=1)
     chk.rule("C07-R4", "par->par bound methods are not stored into raw (fun->fun) operator slots", floor=1)
-    chk.rule("C07-R5", "get_matrix: column i is forward(e_i), materialised in the same iteration before the buffer is reset", floor=1)
+    chk.rule("C07-R5", "get_matrix: column i is forward(e_i), materialised in the same iteration before the buffer is reset; assembled from the forward map only "
+                       "(never from adjoint(e_i): the adjoint is what the matrix is compared with)", floor=1)
     chk.rule("C07-R6", "shipped 2-D convolution pair: the adjoint-by-flipped-kernel shortcut is used only where padding commutes with transposition "
                        "(zero and periodic extension) and mirrors the even-size crop", floor=3)
     _r6(chk, repo)
